@@ -354,4 +354,162 @@ Section FamilyPath.
       rewrite Hsn in Hs2. inversion Hs2; subst l'. rewrite Hx'. reflexivity.
     - exfalso. pose proof (find_none _ _ Ef _ Hin) as Hk. cbn beta iota in Hk. rewrite keyfam_eqb_refl in Hk. discriminate.
   Qed.
+
+  (* THE ABSTRACT CONDITION on a detector: its validation predicate v on the analysis result is false at b exactly
+     when the point is in the field's own value at b and in its value for one possible index of b -- the reading of
+     Detect.validated_in_block for a predicate `checks` that is antitone in the value of ONE key family (checks ctx =
+     false <-> dg (value)) and reads nothing else *)
+  Definition single_key_pred (v : nat -> bool) : Prop := forall b, v b = false <-> unval b.
+
+  (* an unvalidated exit ends a path of unvalidated blocks (Spec/Paths.GoodPath: what the single-contract search
+     enumerates) -- and it is the end of that path *)
+  Theorem unvalidated_leaf_has_unvalidated_path (v : nat -> bool) b :
+    single_key_pred v -> fn_leaf_block f b -> v b = false ->
+    exists p, GoodPath f v p /\ last p 0 = b.
+  Proof.
+    intros Hv (blk & Hin & Hleaf & Hidxb) Hvb.
+    destruct (graph_wf_sound f Hwf) as (_ & _ & _ & _ & _ & _ & Hnd & _).
+    pose proof (fblock_of_In f blk Hnd Hin) as Hb. rewrite Hidxb in Hb.
+    pose proof (family_unvalidated_reachable v Hv b blk Hb Hvb) as Hr.
+    exact (ureach_good_path f v b blk Hsf Hr Hb Hleaf).
+  Qed.
 End FamilyPath.
+
+(* ====================================================================== *)
+(* 3. instance: missing-fee-check                                          *)
+(* ====================================================================== *)
+(* the dangerous point of the fee domain: the bound is KNOWN and above MAX_TRANSACTION_COST (an unknown bound --
+   a comparison of Fee with a run-time value -- is credited by the detector) *)
+Definition fee_danger (v : feeval) : Prop := fee_unknown v = false /\ (MAX_TRANSACTION_COSTz < fee_value v)%Z.
+
+Lemma cost_nonneg : (0 <= MAX_TRANSACTION_COSTz)%Z.
+Proof. apply Z.leb_le. vm_compute. reflexivity. Qed.
+Lemma cost_below_max : (MAX_TRANSACTION_COSTz < MAX_UINT64z)%Z.
+Proof. apply Z.ltb_lt. vm_compute. reflexivity. Qed.
+
+Ltac fee_cases :=
+  intros a b; destruct a as [ua va], b as [ub vb];
+  unfold fee_danger, fee_union, fee_intersection; cbn [fee_unknown fee_value];
+  destruct ua, ub; cbn [andb fee_unknown fee_value];
+  repeat match goal with
+         | |- context [Z.gtb ?x ?y] => destruct (Z.gtb_spec x y)
+         | |- context [Z.ltb ?x ?y] => destruct (Z.ltb_spec x y)
+         end;
+  cbn [fee_unknown fee_value]; intuition (try discriminate; try lia).
+
+Lemma fee_danger_null : ~ fee_danger fee_null_set.
+Proof. unfold fee_danger, fee_null_set. cbn [fee_unknown fee_value]. pose proof cost_nonneg. lia. Qed.
+Lemma fee_danger_univ : fee_danger fee_universal_set.
+Proof. unfold fee_danger, fee_universal_set. cbn [fee_unknown fee_value]. split; [reflexivity | exact cost_below_max]. Qed.
+Lemma fee_danger_union_inv : forall a b, fee_danger (fee_union a b) -> fee_danger a \/ fee_danger b.
+Proof. fee_cases. Qed.
+Lemma fee_danger_inter_inv : forall a b, fee_danger (fee_intersection a b) -> fee_danger a /\ fee_danger b.
+Proof. fee_cases. Qed.
+Lemma fee_danger_union_l : forall a b, fee_danger a -> fee_danger (fee_union a b).
+Proof. fee_cases. Qed.
+Lemma fee_danger_union_r : forall a b, fee_danger b -> fee_danger (fee_union a b).
+Proof. fee_cases. Qed.
+Lemma fee_danger_inter : forall a b, fee_danger a -> fee_danger b -> fee_danger (fee_intersection a b).
+Proof. fee_cases. Qed.
+Lemma fee_danger_eqb : forall a b, feeval_eqb a b = true -> (fee_danger a <-> fee_danger b).
+Proof. intros a b H. apply feeval_eqb_spec in H. subst. tauto. Qed.
+
+(* the detector's predicate is antitone in the ONE value it reads *)
+Lemma fee_check_danger r b fam :
+  checks_missing_fee_check (ctx_of r b fam) = false <-> fee_danger (res_fee r fam b).
+Proof.
+  unfold checks_missing_fee_check, ctx_of, fee_danger. cbn [ctx_max_fee_unknown ctx_max_fee].
+  destruct (fee_unknown (res_fee r fam b)); cbn [orb].
+  - split; [discriminate | intros [H _]; discriminate].
+  - rewrite Z.leb_gt. tauto.
+Qed.
+
+Lemma fam_val_res_fee r fam b : fam_val feeval fee_universal_set (r_fees r) fam b = res_fee r fam b.
+Proof. reflexivity. Qed.
+
+(* the recorded own indices of run_all are group indices *)
+Lemma run_all_indices_range f fuel r : run_all f fuel = Done r ->
+  forall b l i, Analysis.lookup _ (r_indices r) b = Some l -> In i l -> (0 <= i < 16)%Z.
+Proof.
+  intros Hrun b l i Hl Hi.
+  destruct (run_all_inv f fuel r Hrun) as (sizes & idx0 & _ & Ex & _ & Eidx & _).
+  rewrite Eidx in Hl. unfold indices_of in Hl.
+  rewrite (lookup_map_vals (fun b gi => filter (fun i => Z.ltb i (zmax_default
+             match Analysis.lookup _ sizes b with Some l => l | None => [] end)) gi) idx0 b) in Hl.
+  destruct (Analysis.lookup (list Z) idx0 b) as [gi|] eqn:Eg; [|discriminate].
+  cbn [option_map] in Hl. inversion Hl; subst l. apply filter_In in Hi. destruct Hi as [Hi _].
+  pose proof (C06_listed_in_universe f false fuel idx0 Ex b gi Eg i Hi) as Hu.
+  change (SingleLemmas.int_U false) with (map (fun k => (0 + Z.of_nat k)%Z) (seq 0 16)) in Hu.
+  apply in_map_iff in Hu. destruct Hu as (k & <- & Hk). apply in_seq in Hk. lia.
+Qed.
+
+Lemma validated_fee_unval r b :
+  validated_in_block r checks_missing_fee_check None b = false <->
+  unval feeval fee_universal_set fee_danger (r_indices r) (r_fees r) b.
+Proof.
+  unfold validated_in_block, unval, gidx.
+  change (ctx_group_indices (ctx_of r b KSelf))
+    with (match Analysis.lookup _ (r_indices r) b with Some l => l | None => [] end).
+  rewrite !fam_val_res_fee.
+  destruct (checks_missing_fee_check (ctx_of r b KSelf)) eqn:E.
+  - split; [discriminate|]. intros [Hs _]. apply fee_check_danger in Hs. congruence.
+  - apply fee_check_danger in E. rewrite forallb_false. split.
+    + intros (i & Hi & Hc). split; [exact E|]. exists i. split; [exact Hi|].
+      rewrite fam_val_res_fee. apply fee_check_danger. exact Hc.
+    + intros (_ & i & Hi & Hd). exists i. split; [exact Hi|]. apply fee_check_danger.
+      rewrite fam_val_res_fee in Hd. exact Hd.
+Qed.
+
+(* leaves_justified DISCHARGED for missing-fee-check, and the end of the path is the unvalidated exit *)
+Theorem unvalidated_leaf_has_unvalidated_path_fee f fuel r b :
+  graph_wf f = true -> subroutine_free f -> run_all f fuel = Done r ->
+  fn_leaf_block f b -> validated_in_block r checks_missing_fee_check None b = false ->
+  exists p, GoodPath f (validated_in_block r checks_missing_fee_check None) p /\ last p 0 = b.
+Proof.
+  intros Hwf Hsf Hrun Hleaf Hv.
+  destruct (run_all_inv f fuel r Hrun) as (sizes & idx0 & _ & _ & _ & Eidx & Hfam).
+  rewrite <- Eidx in Hfam.
+  apply (unvalidated_leaf_has_unvalidated_path feeval feeval_eqb fee_universal_set fee_null_set fee_union fee_intersection
+           (fun fam => fee_single (fn_intcs f) fam) fee_danger
+           fee_danger_null fee_danger_union_inv fee_danger_inter_inv fee_danger_univ fee_danger_union_l fee_danger_union_r
+           fee_danger_inter fee_danger_eqb feeval_eqb_refl f fuel (r_indices r) (r_fees r) Hwf Hsf Hfam
+           (run_all_indices_range f fuel r Hrun)); [|exact Hleaf|exact Hv].
+  intros b'. apply validated_fee_unval.
+Qed.
+
+Theorem leaves_justified_fee f fuel r :
+  graph_wf f = true -> subroutine_free f -> run_all f fuel = Done r ->
+  leaves_justified f r checks_missing_fee_check.
+Proof.
+  intros Hwf Hsf Hrun (b & Hleaf & Hv).
+  destruct (unvalidated_leaf_has_unvalidated_path_fee f fuel r b Hwf Hsf Hrun Hleaf Hv) as (p & HG & _).
+  exists p. exact HG.
+Qed.
+
+(* C13, last sentence, for missing-fee-check: the one-transaction group reports the transaction IFF the
+   single-contract detector reports a path *)
+Theorem single_group_eq_contract_fee funcs dtype vtypes t k f r fuelr fuel ps :
+  single_contract t k -> nth_error funcs k = Some (f, r) -> relative_accessors [t] t = [] ->
+  eligible dtype vtypes t -> g_abs t = None ->
+  graph_wf f = true -> subroutine_free f -> run_all f fuelr = Done r ->
+  run_detector f r fuel "missing-fee-check" checks_missing_fee_check = Done ps ->
+  (txn_vulnerable funcs checks_missing_fee_check dtype vtypes [t] t = true <-> ps <> []).
+Proof.
+  intros Hone Hfun Hself Hel Habs Hwf Hsf Hrun Hdet.
+  apply (single_group_eq_contract_partial funcs checks_missing_fee_check dtype vtypes t k f r Hone Hfun Hself Hel
+           fuel "missing-fee-check" ps); [discriminate | exact Habs | exact (leaves_justified_fee f fuelr r Hwf Hsf Hrun) | exact Hdet].
+Qed.
+
+(* ... for every parsed structured contract without subroutines *)
+Corollary single_group_eq_contract_fee_parsed funcs dtype vtypes t k p tl r fuelr fuel ps :
+  parse_teal p = Ok tl -> struct_ok tl -> subroutine_free (whole_function tl) ->
+  single_contract t k -> nth_error funcs k = Some (whole_function tl, r) -> relative_accessors [t] t = [] ->
+  eligible dtype vtypes t -> g_abs t = None ->
+  run_all (whole_function tl) fuelr = Done r ->
+  run_detector (whole_function tl) r fuel "missing-fee-check" checks_missing_fee_check = Done ps ->
+  (txn_vulnerable funcs checks_missing_fee_check dtype vtypes [t] t = true <-> ps <> []).
+Proof.
+  intros Hp Hok Hsf Hone Hfun Hself Hel Habs Hrun Hdet.
+  exact (single_group_eq_contract_fee funcs dtype vtypes t k _ r fuelr fuel ps Hone Hfun Hself Hel Habs
+           (graph_wf_whole_function p tl Hp Hok) Hsf Hrun Hdet).
+Qed.
